@@ -825,7 +825,7 @@ fn build_tapes(sets: &[InputSet], tier: &str, seed: u64) -> (Vec<Vec<u64>>, Valu
         enumerated.push(json!({"scenario": case_json(sets, base), "intercepted_calls": clean.cli.trace.len(), "fault_cases": n_faults}));
     }
     // (3) seeded mixes
-    let n_seeded: u64 = std::env::var("VERIF_OS_SEEDED").ok().and_then(|v| v.parse().ok()).unwrap_or(if thorough { 250_000 } else { 2_500 });
+    let n_seeded: u64 = std::env::var("VERIF_OS_SEEDED").ok().and_then(|v| v.parse().ok()).unwrap_or(if thorough { 100_000 } else { 2_500 });
     for r in 0..n_seeded {
         let mut ch = Chooser::explore(Rng::derive(seed, "os-seeded", r));
         let mut c = decode_case(&mut ch, sets.len());
